@@ -2,6 +2,8 @@ import XmppModel.Model.Encoder
 import XmppModel.Model.SendLts
 import XmppModel.Lemmas.Encoder
 import XmppModel.Lemmas.SendLts
+import XmppModel.Model.SendGuard
+import XmppModel.Lemmas.SendGuard
 import XmppModel.Generated.C05
 /-!
 # C05 — each transmit call puts exactly its own element on the wire, whole
@@ -15,44 +17,77 @@ open XmppModel XmppModel.Xml XmppModel.Encoder
 
 /-! ### Tie to the source: lock discipline of every function that touches the output encoder -/
 
-/-- every function of the package that mentions `….out.e`, with how it is protected:
-`locked` = first statement `s.out.Lock()`, second `defer s.out.Unlock()`; `probe` = only
-inspects the encoder's state through a type assertion (its callers are locked, see
-`C05_gen_all_locked`); `holder` = a method
-of `lockWriteCloser`, which only `TokenWriter` creates; `setup` = `negotiateSession` / `writeStreamFeatures`
-(stream negotiation: no other goroutine has the session yet) -/
-def expectedFns : List (String × String) :=
-  [("Encode", "locked"), ("EncodeElement", "locked"), ("lockWriteCloser.EncodeToken", "holder"),
-   ("lockWriteCloser.Flush", "holder"), ("negotiateSession", "setup"), ("outputBroken", "probe"), ("send", "locked"),
-   ("sendError", "locked"), ("writeStreamFeatures", "setup")]
+/-- how a mention of the output encoder may be protected (classes computed by the lock-flow
+analysis of `harness/c05/lockflow.go`, which finds the output side of `Session` by its type,
+follows calls into unexported helpers and does not depend on names of helpers, locals or
+unexported fields):
+`locked` = every mention comes after a top-level `X.out.Lock()` of the function's own body and
+before any non-deferred unlock; `held` = an unexported helper, *every* reference to which
+(call, method value) is made with the lock held — by a locked function, a holder method, or,
+recursively, a held helper; `probe` = as `held`, and the function only inspects the encoder's
+state through a type assertion; `holder` = a method of the type `TokenWriter` returns (made
+only with the lock held: `C05_gen_tokenwriter_holds_lock`); `setup` = `negotiateSession` /
+`writeStreamFeatures` (stream negotiation: no other goroutine has the session yet).
+Anything else is reported as `unlocked` / `unlocked-probe`. -/
+def protectedClass (c : String) : Bool :=
+  c == "locked" || c == "held" || c == "probe" || c == "holder" || c == "setup"
 
-theorem C05_gen_lock_discipline : Generated.C05.transmitFns = some expectedFns := by decide
+/-- the functions that may write while the stream is being negotiated -/
+def setupFns : List String := ["negotiateSession", "writeStreamFeatures"]
 
-/-- `TokenWriter` takes the output lock before it hands out the writer and the writer's `Close`
-releases it (deferred, so also when the final flush fails) -/
+/-- the table is there, the token writer's methods are in it (class `holder`), and only the two
+negotiation functions are excused as `setup`.  That `Encode`, `EncodeElement`, `Send`,
+`SendElement` take the lock — themselves or through an unexported function they delegate to —
+is part of `C05_gen_broken_guard` (no row is pinned by name: a maintainer may move the locking
+body of an entry point into a helper) -/
+theorem C05_gen_lock_discipline :
+    ∃ t, Generated.C05.transmitFns = some t ∧
+      (∃ p ∈ t, p.2 = "holder") ∧ (∃ p ∈ t, p.2 = "locked") ∧
+      (∀ p ∈ t, p.2 = "setup" → p.1 ∈ setupFns) := by
+  refine ⟨_, rfl, by decide, by decide, by decide⟩
+
+/-- `TokenWriter` takes the output lock before it hands out the writer (and does not release
+it), values of the writer's type are made nowhere else without the lock, and the writer's
+`Close` releases it (deferred, so also when the final flush fails) -/
 theorem C05_gen_tokenwriter_holds_lock :
-    Generated.C05.tokenWriterLocks = some true ∧ Generated.C05.closeUnlocks = some true := by decide
+    Generated.C05.tokenWriterLocks = some true ∧ Generated.C05.closeUnlocks = some true ∧
+    Generated.C05.holderOnlyFromLocked = some true := by decide
 
-/-- no function writes to the encoder without the lock -/
+/-- no function touches the encoder — writes to it or reads its state — without the lock:
+every mention in the package is in a protected class (hypothesis `locks i = true` of
+`C05_atomic`, and what makes the answer of the broken-element probe stay valid until the
+element has been written) -/
 theorem C05_gen_all_locked :
-    ∃ t c, Generated.C05.transmitFns = some t ∧ Generated.C05.probeCallers = some c ∧
-      (∀ p ∈ t, p.2 = "locked" ∨ p.2 = "holder" ∨ p.2 = "setup" ∨ p.2 = "probe") ∧
-      (∀ p ∈ c, p.2 = "locked" ∨ p.2 = "holder") := by
-  refine ⟨_, _, C05_gen_lock_discipline, rfl, by decide, by decide⟩
+    ∃ t, Generated.C05.transmitFns = some t ∧ t ≠ [] ∧ ∀ p ∈ t, protectedClass p.2 = true := by
+  refine ⟨_, rfl, by decide, by decide⟩
 
-/-- the encoder's state can only change in `EncodeToken` (a `Flush` of its own, or any other
-method, could move the depth counter behind the model's back: `C05_flush_transparent` rests
-on this) -/
-theorem C05_gen_encoder_methods : Generated.C05.stanzaEncoderMethods = some ["EncodeToken"] := by decide
+/-- the encoder's state can only change in `EncodeToken`: it is the only method of the encoder's
+type that assigns to one of its fields (a `Flush` of its own that resets the depth would move
+the counter behind the model's back: `C05_flush_transparent` rests on this; methods that only
+read do not matter), and outside the type only stream negotiation (which builds the encoder)
+writes to such a field -/
+theorem C05_gen_encoder_methods :
+    Generated.C05.stanzaEncoderMethods = some ["EncodeToken"] ∧
+    ∃ o, Generated.C05.stanzaEncoderOutsideWriters = some o ∧ ∀ f ∈ o, f ∈ setupFns := by
+  refine ⟨by decide, _, rfl, by decide⟩
 
 /-- every one-shot transmit entry point refuses to write when the previous write was abandoned
-inside an element (hypothesis `guard = true` of the fault theorems) -/
+inside an element (hypothesis `guard = true` of the fault theorems), and it finds that out
+UNDER the lock: in the function that takes the lock for the entry point the order is `Lock`,
+`defer Unlock`, a conditional early return that reaches the probe of the encoder's state
+(directly or through helpers), then the first write (`guardUnderLock` of
+`C05_guard_under_lock_refuses`; a probe in front of the `Lock` is the schedule of
+`C05_guard_before_lock_nests`).  The token writer's `EncodeToken` does the same before its
+first write. -/
 theorem C05_gen_broken_guard :
-    Generated.C05.brokenGuard = some [("Encode", true), ("EncodeElement", true), ("send", true)] := by decide
+    Generated.C05.entryGuard =
+      some [("Encode", true), ("EncodeElement", true), ("Send", true), ("SendElement", true)] ∧
+    Generated.C05.holderGuard = some true := by decide
 
-/-- `internal/marshal` keeps no state between calls: no package-level variable (a pooled or
-cached buffer shared between calls and sessions is how one call's content ends up in
-another's element) -/
+/-- `internal/marshal` keeps no state between calls: no package-level variable other than error
+sentinels (`errors.New` / `fmt.Errorf`) and blank interface assertions (a pooled or cached
+buffer shared between calls and sessions is how one call's content ends up in another's
+element) -/
 theorem C05_gen_marshal_stateless : Generated.C05.marshalGlobals = some [] := by decide
 
 /-! ### The stanza encoder changes exactly what the property allows -/
@@ -183,18 +218,38 @@ theorem C05_from_cfg (cfg : Cfg) (fresh : String) (n : Name) (as : List Attr)
   · refine ⟨fromAttr cfg, ?_, rfl, hfrom, fun _ => rfl⟩
     simp [hfound, hfrom]
 
-/-- the source of the encoder's address as the repository has it: the one assignment to the
-`from` field of a stanzaEncoder (regenerated: function and assigned expression) -/
-def genFromSource : FromSource :=
-  match Generated.C05.encoderFrom with
-  | some [(_, e)] => FromSource.ofExpr e
+/-- the addresses of the probe sessions: each of the four is named after its role -/
+def probeAddrs : Addrs := ⟨"inTo", "inFrom", "outFrom", "outTo"⟩
+
+def FromSource.ofRole : String → FromSource
+  | "inTo" => .localAddr
+  | "inFrom" => .remoteAddr
+  | "outFrom" => .outFrom
+  | "outTo" => .outTo
   | _ => .other
 
-/-- regenerated: there is exactly one assignment to the encoder's `from` field, what it assigns is
-the session's local address (`s.LocalAddr()` or the field that method returns), and
-`LocalAddr()` returns the `to` of the input stream info -/
+/-- the source of the encoder's address as the repository has it: what a real received
+server-to-server session with four different addresses stamps on an outgoing stanza
+(regenerated PROBE fact: `harness facts` negotiates the sessions and reads the wire) -/
+def genFromSource : FromSource :=
+  match Generated.C05.fromProbe with
+  | some rows =>
+    match rows.find? (fun r => r.1 == "received" && r.2.1 == nsServer) with
+    | some r => FromSource.ofRole r.2.2.2
+    | none => .other
+  | none => .other
+
+/-- regenerated probe: on initiated and received sessions, client and server-to-server
+namespace, with four pairwise different addresses, `LocalAddr()` reports the `to` of the input
+stream info and the `from` the encoder stamps is exactly what the model's `sessionCfg` says
+for the probed source — the local address on server-to-server streams, nothing on client
+streams -/
 theorem C05_gen_from_source :
-    genFromSource = .localAddr ∧ Generated.C05.localAddrReturns = some "s.in.Info.To" := by decide
+    genFromSource = .localAddr ∧
+    ∃ rows, Generated.C05.fromProbe = some rows ∧ rows.length = 4 ∧
+      ∀ r ∈ rows, r.2.2.1 = probeAddrs.localAddr ∧
+        (sessionCfg genFromSource r.2.1 probeAddrs).from_ = r.2.2.2 := by
+  refine ⟨by decide, _, rfl, by decide, by decide⟩
 
 /-- **server-to-server streams**: whatever addresses the session holds (told beforehand or
 learnt from the peer's stream header, initiated or received), when it reports a non-empty
@@ -628,5 +683,85 @@ theorem C05_atomic_fails_without_lock :
 open XmppModel.SendLts in
 example : (run (fun i => if i = 0 then ["a1", "a2"] else ["b1", "b2"]) (fun _ => true) (init String)
       [0, 0, 1, 1, 0, 1, 0, 1, 1, 1, 1]).wire = ["a1", "a2", "b1", "b2"] := by decide
+
+/-! ### Round C: the broken-element guard is evaluated under the lock
+
+Calls may stop inside their element (`failAt`); every call asks whether the stream is inside an
+unfinished element before it writes.  `entryGuard` / `holderGuard` (`C05_gen_broken_guard`) say
+that the source asks *after* `Lock` — `early i = false` for every call. -/
+
+/-- **guard under the lock**: any number of calls, any jobs, any of them stopping anywhere,
+**every schedule**: no call ever writes its first item inside another call's unfinished
+element (every element that is started is a top-level element of the stream), nobody is
+refused unless some call really failed, and between calls the encoder is inside an element
+only if a call stopped there -/
+theorem C05_guard_under_lock_refuses {α : Type} (p : SendGuard.Prog α) (he : ∀ i, p.early i = false)
+    (sched : List Nat) :
+    (SendGuard.run p (SendGuard.init α) sched).nested = [] ∧
+    (∀ i, (SendGuard.run p (SendGuard.init α) sched).pc i = .refused →
+        ∃ j, (SendGuard.run p (SendGuard.init α) sched).pc j = .failed) ∧
+    ((SendGuard.run p (SendGuard.init α) sched).lock = none →
+      (SendGuard.run p (SendGuard.init α) sched).inside = true →
+        ∃ j, (SendGuard.run p (SendGuard.init α) sched).pc j = .failed) := by
+  have inv := SendGuard.inv_run p he sched _ (SendGuard.inv_init p)
+  refine ⟨inv.nested, inv.why_refused, ?_⟩
+  intro hl hi
+  rcases inv.why_inside hi with ⟨j, k, hj, _⟩ | hf
+  · rw [hl] at hj; cases hj
+  · exact hf
+
+/-- when the calls of the source ask: before queuing for the lock iff the regenerated facts do
+not show the probe under the lock for every entry point and the token writer -/
+def genEarly : Bool :=
+  !(Generated.C05.entryGuard ==
+      some [("Encode", true), ("EncodeElement", true), ("Send", true), ("SendElement", true)] &&
+    Generated.C05.holderGuard == some true)
+
+/-- the same for the source as it is: with the guard where the regenerated facts find it, for
+every program and every schedule no element is started inside an unfinished one -/
+theorem C05_guard_as_extracted {α : Type} (p : SendGuard.Prog α) (he : ∀ i, p.early i = genEarly)
+    (sched : List Nat) : (SendGuard.run p (SendGuard.init α) sched).nested = [] :=
+  (C05_guard_under_lock_refuses p (fun i => by rw [he i]; decide) sched).1
+
+/-- after a call has stopped inside its element the stream stays silent: whatever is scheduled
+afterwards, not one more item reaches the wire and no further call completes (every later
+call is refused — it does not report success for an element that is not top level) -/
+theorem C05_broken_stream_stays_silent {α : Type} (p : SendGuard.Prog α) (he : ∀ i, p.early i = false)
+    (sched later : List Nat)
+    (hl : (SendGuard.run p (SendGuard.init α) sched).lock = none)
+    (hi : (SendGuard.run p (SendGuard.init α) sched).inside = true) :
+    (SendGuard.run p (SendGuard.run p (SendGuard.init α) sched) later).wire =
+      (SendGuard.run p (SendGuard.init α) sched).wire ∧
+    (SendGuard.run p (SendGuard.run p (SendGuard.init α) sched) later).finished =
+      (SendGuard.run p (SendGuard.init α) sched).finished :=
+  SendGuard.dead_run p he later _ (SendGuard.inv_run p he sched _ (SendGuard.inv_init p)) hl hi
+
+/-- two calls: call 0 sends `a b c` and stops before `b`, call 1 sends `x y` -/
+def guardDemo (early : Bool) (fails : Bool) : SendGuard.Prog String :=
+  { job := fun i => if i = 0 then ["a", "b", "c"] else ["x", "y"],
+    failAt := fun i => if i = 0 ∧ fails then some 1 else none,
+    early := fun _ => early }
+
+/-- non-vacuity: under the lock, the call queued behind the one that stops is refused and the
+wire ends with the unfinished element -/
+example :
+    let s := SendGuard.run (guardDemo false true) (SendGuard.init String) [0, 0, 1, 0, 1, 1, 1]
+    s.pc 0 = .failed ∧ s.pc 1 = .refused ∧ s.wire = ["a"] ∧ s.lock = none ∧ s.inside = true := by
+  decide
+
+/-- **the hypothesis is necessary** (the "fail fast" rewrite: probe in front of `Lock`): call 1
+looks at the encoder, queues behind call 0, call 0 stops inside its element and releases the
+lock, call 1 writes its element INSIDE the unfinished one and reports success -/
+theorem C05_guard_before_lock_nests :
+    let s := SendGuard.run (guardDemo true true) (SendGuard.init String) [1, 0, 0, 0, 0, 1, 1, 1, 1]
+    s.pc 0 = .failed ∧ s.pc 1 = .done ∧ s.nested = [1] ∧ s.wire = ["a", "x", "y"] := by
+  decide
+
+/-- the same rewrite also refuses calls for no reason: nobody fails, call 1 merely looks while
+call 0 is in the middle of its element (an unlocked look cannot tell "broken" from "busy") -/
+theorem C05_guard_before_lock_refuses_spuriously :
+    let s := SendGuard.run (guardDemo true false) (SendGuard.init String) [0, 0, 0, 1, 0, 0, 0]
+    s.pc 0 = .done ∧ s.pc 1 = .refused ∧ ∀ j, j < 2 → s.pc j ≠ .failed := by
+  decide
 
 end XmppModel.Props.C05
